@@ -158,6 +158,7 @@ def heap_groups(ctx, sc_dir):
             files.append(mkfile('noatoms%d' % i, ['#S 1 Z%da\n' % i] + e[1:k] + [entry(b, 'Z%db' % i), '#EOF\n']))
         else: files.append(mkfile('many%d' % i, [entry(r.choice(names), 'M%d_%d' % (i, j)) for j in range(25)] + ['#EOF\n']))
     files.append(os.path.join(sc_dir, 'does-not-exist.dat'))
+    groups.append(['bfill 40'])          # the built-in collection filled up, then 40 refused additions (its own process: the collection is global)
     for h in range(12 if not thorough else 120):
         g = ['ainit %d' % r.choice([0, 1, 2, 3, 9, 10, 11, 19, 20])]
         for j in range(r.randrange(2, 30)):
@@ -212,7 +213,7 @@ def heap_search(check, ctx):
     groups = heap_groups(ctx, ctx.sc.path('c04files'))
     # the same single operations once more WITHOUT an error slot (ownership of nested error objects), and the operations that
     # parse a compound once more in a non-C numeric locale (the parser saves / switches / restores LC_NUMERIC)
-    singles = [g for g in groups if len(g) == 1 and not g[0].startswith('err ')]
+    singles = [g for g in groups if len(g) == 1 and not g[0].startswith(('err ', 'bfill '))]
     noslot = [['N:' + g[0]] for g in singles]
     loc = [g for g in groups if g[0].split(' ')[0] in ('cp', 'cscp', 'ri')]
     if ctx.tier != 'thorough': loc = loc[::3]
